@@ -28,6 +28,35 @@ CHECKS = {
                 note=TB + "Proved for the modelled core; the wrapper layer (_wrap_specfun etc.) is sampled."),
 }
 
+CHECKS.update({
+    "C06": dict(category="translation_validation", technique="bit-exact correspondence of floor/ceil/nint/frac/mod/to_int with the Lean model + exact rational decision of the definitions (theorems for the integer-part functions in progress)",
+                text="The real libmpf functions and the public API (mp.floor/ceil/nint/frac, int(), %, fmod; int/float/mpf/mpc operands) are compared bit for bit with the Lean model of the same functions, "
+                     "and every result is decided exactly (Fractions) against the mathematical definition in the property text and against correct rounding.",
+                note=TB + "No theorem about mpf_round_int/mpf_mod yet: the model of these functions is validated by correspondence and the property is decided per input; their callees (normalize, add/sub) are proved."),
+    "C24": dict(category="proof", technique="AST->Lean loop-skeleton translator regenerated from /repo on every run + Lean termination theorems per loop class + dynamic step-budget confirmation",
+                text="Every while-loop of /repo/mpmath is classified by a translator that runs on the current tree; for the classes counter/countdown/halving/strip/euclid/fixdecay/giant-steps/tolOrDiverge/divGuard/bounded/retry "
+                     "Lean theorems give termination with explicit bounds, and each extracted loop carries a generated, kernel-checked obligation (124 of 229). Loops that exit only on a tolerance (105) are OPEN obligations, "
+                     "attacked dynamically under a step budget on grids designed per host function; a loop whose class degrades against the committed baseline is a broken obligation.",
+                note=TB + "The classification is syntactic and trusted; numeric preconditions of the class theorems (v >= 0, r < 2^prec, ...) are assumed at the call sites and listed per loop. The property is therefore PARTIAL: "
+                     "termination of the open loops is sampled, not proved."),
+    "C29": dict(category="translation_validation", technique="Lean-verified certificate checker (root inclusion radius n|P(r)|/|P'(r)| proved over C; exact Gaussian-rational evaluation) + Lean model of polyroots' ordering logic + sampled runs",
+                text="Theorems: rootIncl_sound (every returned root has a true root within the certified radius), soundness of the executable squared comparisons, one-to-one matching when discs are disjoint, the sort/pairing logic "
+                     "of polyroots (real roots first, conjugates adjacent after the repair of D13), multiplicity loop, verify test. Each output of polyroots/findroot (all solvers)/multiplicity on generated problems is decided by the checker in exact arithmetic; "
+                     "the ordering logic is tied bit-exactly to the code.",
+                note=TB + "The quantifier 'all functions and starting points' is sampled; the oracle is rigorous. No theorem about convergence of any solver."),
+    "C30": dict(category="translation_validation", technique="Lean-verified certificates (Neumann-series bound for solve/inverse, exact determinant, factorization identities in exact dyadic arithmetic) + sampled runs of the real routines",
+                text="Theorems: if ||I - R A|| <= alpha < 1 then A is invertible and the forward error of the computed solution/inverse is bounded as checked (solveCert_sound, invCert_sound, lsqCert_sound), detCert, "
+                     "lu/qr/cholesky identity checkers sound. lu_solve, qr_solve, cholesky_solve, inverse, det, lu, qr, cholesky and matrix arithmetic are run on generated matrices (sizes 1..8, precisions 30..300) and each output, read exactly, is decided by the checker; "
+                     "LU_decomp is additionally run over exact Fractions and compared with an exact model of its pivoting.",
+                note=TB + "The quantifier over matrices is sampled; tolerances are instantiated from the property text (cond*2^(10-p)); factorization residual scales are stated in the check's assumptions."),
+    "C31": dict(category="translation_validation", technique="Lean-verified residual checkers in exact Gaussian-dyadic arithmetic + sampled runs",
+                text="Theorems: the checkers' squared-norm comparisons are equivalent to / imply the stated residual bounds (eig, eigh/eigsy, svd, schur, hessenberg; orthonormality, ordering, realness, structure). Every decomposition returned by the real code on generated matrix classes is decided exactly.",
+                note=TB + "Sampled inputs; no theorem about QR/QL iteration."),
+    "C32": dict(category="translation_validation", technique="Lean-verified identity checkers in exact arithmetic + sampled runs",
+                text="Theorems: closeCheck/sqrtmCheck/powmCheck/cosSinCheck decide exactly the stated norm inequalities. expm(logm A) = A, sqrtm(A)^2 = A, powm(A,k) = A^k (exact power), cosm^2 + sinm^2 = I are decided on outputs of the real code.",
+                note=TB + "Sampled inputs; expm of diagonal matrices is compared against mp.exp at higher precision (an assumption stated in the evidence)."),
+})
+
 NOT_YET = "not yet built in this round (see DESIGN.md section 6 staging); no check is claimed"
 NOT_APPLICABLE = {
     "C20": "erf/Ei/Si/Ci/Fresnel/incomplete gamma and beta are not defined in Mathlib with computable bounds; no theorem can relate an output to the function, and an unverified reference would be testing under another name (DESIGN.md section 7)",
